@@ -292,6 +292,53 @@ def s_ioerr(F, R):
     # Pending and zero-length read cases), not by the shape of its match arms
 
 
+def s_collect(F, R):
+    """Every entry a decoder reads in a loop is stored: a `push` (insert / extend) into the list a decoder builds is not
+    conditional on what the list already holds or on the entry itself -- a decoder that skips a repeated or "redundant" entry
+    returns a packet with fewer entries than the bytes carry, and whatever accounts the bytes through the stored entries
+    (`last()`, `encode_len()`) then miscounts."""
+    n = 0
+    for fid in sorted(closure_of(F, decode_roots(F))):
+        f = F.fns.get(fid)
+        if not f or not f.get("thir"):
+            continue
+        if f["kind"] == "Closure" and fid.endswith("::{closure#0}") and _is_async_fn(F, fid[:-len("::{closure#0}")]):
+            continue
+        b = nbody(F, fid) if f["kind"] != "Closure" else _closure_body(F, fid)
+        if b is None:
+            continue
+        par = None
+        for x in walk_all(b):
+            if x.get("k") != "Call" or x["fn"].get("name") not in ("push", "insert", "extend", "push_back", "extend_from_slice", "append") \
+                    or not (x["fn"].get("def") or "").startswith("alloc::"):
+                continue
+            if par is None:
+                par = _parents(b)
+            n += 1
+            dest = pp(strip(x["args"][0])).lstrip("&*").replace("mut ", "").strip()
+            vals = {pp(y) for a in x["args"][1:] for y in walk_all(a) if y.get("k") in ("Var", "Upvar")}
+            for a in _ancestors(par, x):
+                if a.get("k") in ("While", "Loop", "For"):
+                    break
+                cond = None
+                if a.get("k") == "If":
+                    cond = a["cond"]
+                elif a.get("k") == "Match":
+                    cond = a["scrut"]
+                if cond is None:
+                    continue
+                names = {pp(y) for y in walk_all(cond) if y.get("k") in ("Var", "Upvar", "Field")}
+                txt = pp(cond)
+                if dest in txt or any(d_ in names for d_ in (dest,)) or (vals & names):
+                    R.fail("S-collect", "%s/%s" % (f["root"], dest),
+                           "%s stores an entry it has read into `%s` only under the condition `%s`, which depends on the list or on the entry: "
+                           "some entries on the wire are not in the packet" % (f["root"], dest, txt[:80]), where=loc(x))
+                    break
+            else:
+                continue
+    R.floor("S-collect", "stores into decoded lists", n, 8)
+
+
 def _closure_result_used(F, fid, depth=0):
     """The closure's result (an io::Result it returns as its tail) reaches a `?`, a `return` or the enclosing function's own
     tail through the combinator it is handed to (`map_or(Ok(()), f)`, `try_for_each(f)`, `and_then(f)` ..) and the method chain
